@@ -35,7 +35,7 @@ def budget(tier):
     ex = int(os.environ.get("VERIF_EXAMPLES", "0"))
     if tier == "quick":
         return dict(shards=16, examples=ex or 8, shrink_calls=10, shard_timeout=1500, time_budget=110)
-    return dict(shards=16, examples=ex or 120, shrink_calls=60, shard_timeout=6 * 3600, time_budget=3 * 3600)
+    return dict(shards=16, examples=ex or 600, shrink_calls=60, shard_timeout=6 * 3600, time_budget=1500)
 
 
 def E(s):
